@@ -10,7 +10,10 @@ The descriptions served by the fakes also define a selector-addressed register b
 sessions read slots through the camera's params context before and after close / reopen while the device's own
 memory changes behind the cache (a read after a clean close must be a device read returning the device's value),
 and one description declares TLParamsLocked with <pValue> + <pValueCopy> (the mirror write is a failure point of
-its own).
+its own).  Further descriptions: the two commands carry <pIsAvailable> backed by device registers which the
+device changes by itself (execute() does not consult them: when no operation fails nothing may fail), TLParamsLocked
+as a host-side variable, AcquisitionStop with CommandValue 0; a params write of a further host-side variable; the
+effect log carries the VALUE AcquisitionStart / AcquisitionStop write, checked against the description's CommandValue.
 The predicate below is the property itself, evaluated on the implementation's output only.
 """
 import json
@@ -23,8 +26,16 @@ OPEN, STOP, CLOSE, PARAMS = 0, 3, 4, 5
 LOAD, START = 20, 13           # load_context with the conforming description, start_streaming(3)
 ALPHABET = [OPEN, LOAD, START, STOP, CLOSE, PARAMS]
 LOADC = 48                     # load_context, conforming description with TLParamsLocked = <pValue> + <pValueCopy>
+LOADA = 49                     # conforming, AcquisitionStart / AcquisitionStop carry <pIsAvailable> backed by device registers
+LOADH = 50                     # TLParamsLocked is a host-side variable (<Value>0</Value>), AcquisitionStop <CommandValue>0
+LOADZ = 51                     # conforming (TLParamsLocked in its register), AcquisitionStop <CommandValue>0
+LAST_LOAD = 51
 BANK = 60                      # BANK + k: select slot k of the register bank and read it through params_ctxt
+USER = 70                      # USER + v: params write UserVar := v (a host-side variable of the context, <Value>1</Value>)
 NSLOT = 4
+NMEM = 6                       # words of the device memory the environment may change: 0..3 the bank, 4 / 5 the
+AVAIL_START, AVAIL_STOP = 4, 5  # availability registers of AcquisitionStart / AcquisitionStop (description LOADA)
+A_START, A_STOP = 0x1004, 0x1008
 
 
 def poke(k, v):
@@ -38,8 +49,10 @@ E_LSTART, E_LSTOP, E_DISABLE, E_CTRL_CLOSE, E_STRM_CLOSE, E_READ = 9, 10, 11, 12
 CTRL_OPS = {E_CTRL_OPEN, E_FETCH, E_ENABLE, E_DISABLE, E_CTRL_CLOSE}
 STRM_OPS = {E_STRM_OPEN, E_LSTART, E_LSTOP, E_STRM_CLOSE}
 E_COPY1, E_COPY0, E_BANK = 16, 17, 30     # write of 1 / 0 to the <pValueCopy> mirror; E_BANK + k: device read of bank slot k
+E_ASTART0, E_ASTOP0 = 19, 18              # write of 0 to the AcquisitionStart / AcquisitionStop register (7 / 8: write of 1)
 BANK_READS = set(range(E_BANK, E_BANK + NSLOT))
-REG_OPS = {E_TL1, E_TL0, E_ASTART, E_ASTOP, E_READ, E_COPY1, E_COPY0} | BANK_READS
+AVAIL_READS = {E_BANK + AVAIL_START, E_BANK + AVAIL_STOP}
+REG_OPS = {E_TL1, E_TL0, E_ASTART, E_ASTOP, E_ASTART0, E_ASTOP0, E_READ, E_COPY1, E_COPY0} | BANK_READS | AVAIL_READS
 FOCUS_OPS = {E_COPY1, E_COPY0} | BANK_READS   # failure points that get every fault class in the focus families
 
 F_LOOP, F_CTXT, F_C_TL, F_C_START, F_C_STOP, F_COPEN, F_SOPEN, F_ENABLED, F_LOCKED, F_ACQ = \
@@ -132,6 +145,9 @@ def judge(calls, plan, rs, bits, faulty_call=None):
     """bits: the state bits the harness reports (the end-to-end harness sees the device memory and
     the streaming flag only; there nops is None: no failure is planned)."""
     copen = sopen = enabled = locked = acq = alive = False
+    flocked = False              # TLParamsLocked as the protocol sees it: the register, or (description LOADH) a host-side
+                                 # variable whose writes are not device-visible: there it is taken as set with AcquisitionStart
+    desc = None                  # the description loaded last (call code)
     mirror = False               # the <pValueCopy> mirror register of TLParamsLocked, replayed from the effects
     hascopy = False              # the description loaded last declares the mirror
     loaded = set()               # the descriptions loaded so far
@@ -139,12 +155,15 @@ def judge(calls, plan, rs, bits, faulty_call=None):
     any_failure = False          # a planned failure that was reached
     good = True                  # all calls so far inside close_clean's hypotheses
     ctxt = False
-    mem = [0] * NSLOT            # the device's own bank memory (changed by the environment steps of the session)
+    mem = [0] * NMEM             # the device's own memory (changed by the environment steps of the session)
     fresh = {}                   # slot -> the value a device read of it returned since the last clean close
     for i, (call, r) in enumerate(zip(calls, rs)):
         flag_before = alive       # equality with the flag was checked after the previous call
         where = "call %d (%d)" % (i, call)
         is_start = 10 <= call <= 19
+        hosttl = desc == LOADH
+        stopval = 0 if desc in (LOADH, LOADZ) else 1          # CommandValue of AcquisitionStop; AcquisitionStart: 1
+        ctxt_before = ctxt
         if is_start and call == 10:
             good = False
         if 20 <= call <= 47 and call not in (20, 47):
@@ -169,8 +188,17 @@ def judge(calls, plan, rs, bits, faulty_call=None):
         # --- the effects, in order
         for e in r["effs"]:
             code = e[0]
+            if code == 90 and e[1] in (A_START, A_STOP):
+                return where + ": %s wrote %d, its CommandValue in the description is %d" % (
+                    "AcquisitionStart" if e[1] == A_START else "AcquisitionStop", e[3], 1 if e[1] == A_START else stopval)
             if code in (90, 91):
                 return where + ": unexpected register access %r" % (e,)
+            if code == E_ASTART0:
+                return where + ": AcquisitionStart wrote 0, its CommandValue in the description is 1"
+            if code in (E_ASTOP, E_ASTOP0):
+                if (1 if code == E_ASTOP else 0) != stopval:
+                    return where + ": AcquisitionStop wrote %d, its CommandValue in the description is %d" % (1 - stopval, stopval)
+                code = E_ASTOP
             if code in BANK_READS and call != BANK + code - E_BANK:
                 return where + ": unexpected device read of bank slot %d" % (code - E_BANK)
             if code == E_ENABLE:
@@ -180,17 +208,19 @@ def judge(calls, plan, rs, bits, faulty_call=None):
             elif code == E_TL1:
                 if not enabled or alive:
                     return where + ": TLParamsLocked=1 before the stream is enabled / while a loop is alive"
-                locked = True
+                locked = flocked = True
             elif code == E_COPY1:
-                if not (enabled and locked) or alive:
+                if not (enabled and flocked) or alive:
                     return where + ": mirror of TLParamsLocked set before the stream is enabled and TLParamsLocked=1 / while a loop is alive"
                 mirror = True
             elif code == E_COPY0:
-                if alive or acq or locked:
+                if alive or acq or flocked:
                     return where + ": mirror of TLParamsLocked cleared before the loop is halted, AcquisitionStop issued and TLParamsLocked=0"
                 mirror = False
             elif code == E_ASTART:
-                if not (enabled and locked) or alive:
+                if hosttl:
+                    flocked = True
+                if not (enabled and flocked) or alive:
                     return where + ": AcquisitionStart before EnableStreaming and TLParamsLocked=1"
                 if hascopy and not mirror:
                     return where + ": AcquisitionStart before the <pValueCopy> mirror of TLParamsLocked is set"
@@ -198,7 +228,7 @@ def judge(calls, plan, rs, bits, faulty_call=None):
             elif code == E_LSTART:
                 if alive:
                     return where + ": a second receive loop is started"
-                if not (enabled and locked and acq):
+                if not (enabled and flocked and acq):
                     return where + ": receive loop started before EnableStreaming, TLParamsLocked=1, AcquisitionStart"
                 alive = True
                 loops += 1
@@ -214,9 +244,11 @@ def judge(calls, plan, rs, bits, faulty_call=None):
             elif code == E_TL0:
                 if alive or acq:
                     return where + ": TLParamsLocked=0 before the loop is halted and AcquisitionStop issued"
-                locked = False
+                locked = flocked = False
             elif code == E_DISABLE:
-                if alive or acq or locked:
+                if hosttl:
+                    flocked = False
+                if alive or acq or flocked:
                     return where + ": DisableStreaming before loop halt, AcquisitionStop and TLParamsLocked=0"
                 if hascopy and mirror:
                     return where + ": DisableStreaming before the <pValueCopy> mirror of TLParamsLocked is cleared"
@@ -231,7 +263,7 @@ def judge(calls, plan, rs, bits, faulty_call=None):
                 sopen = False
             if not 0 <= loops <= 1:
                 return where + ": %d loops alive" % loops
-            if alive and not (enabled and locked and acq):
+            if alive and not (enabled and flocked and acq):
                 return where + ": a loop is alive while the device is not in the streaming configuration"
         if is_start and r["res"] != 0 and alive != flag_before:
             return where + ": a failed start left a loop running"
@@ -254,8 +286,9 @@ def judge(calls, plan, rs, bits, faulty_call=None):
             if bits & bit and bool(f & bit) != v:
                 return where + ": device state '%s' differs from the effects that happened" % name
         ctxt = bool(f & F_CTXT)
-        if 20 <= call <= LOADC and r["res"] == 0:
+        if 20 <= call <= LAST_LOAD and r["res"] == 0:
             hascopy = call == LOADC
+            desc = call
             loaded.add(call)
         # --- a successful open leaves BOTH channels opened (also when an earlier open failed half-way: the retry
         #     must open what is still closed); everything after it presupposes that
@@ -300,8 +333,17 @@ def judge(calls, plan, rs, bits, faulty_call=None):
             elif r["val"] != fresh[k]:
                 return where + (": bank slot %d read as %d without a device access; the value read from the device since "
                                 "the last close is %d" % (k, r["val"], fresh[k]))
-        # --- params access returns the device's TLParamsLocked
-        if call == PARAMS and r["res"] == 0 and r["val"] != int(locked):
+        # --- no device operation failed => no error: open / stop return Ok, start returns Ok unless it is refused for
+        #     one of the two documented reasons (close: below)
+        if i == faulty_call:
+            any_failure = True      # end-to-end: a transaction of this call was disturbed
+        if good and not any_failure and r["res"] != 0:
+            if call in (OPEN, STOP):
+                return where + ": %s failed (result %d) although no operation failed" % ("open" if call == OPEN else "stop_streaming", r["res"])
+            if is_start and not flag_before and ctxt_before:
+                return where + ": start_streaming failed (result %d) although no operation failed and a conforming description is loaded" % r["res"]
+        # --- params access returns the device's TLParamsLocked (a host-side TLParamsLocked is not device-visible)
+        if call == PARAMS and r["res"] == 0 and not hosttl and r["val"] != int(locked):
             return where + ": TLParamsLocked read as %d, the device holds %d" % (r["val"], int(locked))
         if i == faulty_call:
             any_failure = True      # end-to-end: a transaction of this call was disturbed
@@ -314,7 +356,11 @@ def judge(calls, plan, rs, bits, faulty_call=None):
                 return where + ": close failed although no operation failed"
             # the mirror register follows the description loaded at the time of each start / stop: it is demanded
             # to be 0 only when every description loaded in the session declares it (or none does)
-            dirty = f & bits & ~(F_MIRROR if len(loaded) > 1 else 0)
+            # likewise the register of TLParamsLocked when descriptions that keep it on the host side and descriptions that
+            # keep it in the register were both loaded
+            copymix = len({c == LOADC for c in loaded}) > 1
+            hostmix = len({c == LOADH for c in loaded}) > 1
+            dirty = f & bits & ~(F_MIRROR if copymix else 0) & ~(F_LOCKED if hostmix else 0)
             if dirty:
                 return where + ": after close (no failure) state bits %d remain (1 loop, 4/8/16/2048/4096.. cache, 32/64 handles open, 128 stream enabled, 256 TLParamsLocked, 512 acquiring, 1024 mirror of TLParamsLocked)" % dirty
     return None
@@ -556,13 +602,66 @@ def bank_sessions(quick):
     return out
 
 
-def copy_sessions(depth):
-    """every session up to the depth over {open, load_context(description with the <pValueCopy> mirror),
-    start_streaming(3), stop_streaming, close, params access}"""
+def variant_sessions(load, depth):
+    """every session up to the depth over {open, load_context(the given description), start_streaming(3),
+    stop_streaming, close, params access}"""
     seqs, out = [[]], []
     for _ in range(depth):
-        seqs = [q + [a] for q in seqs for a in (OPEN, LOADC, START, STOP, CLOSE, PARAMS)]
+        seqs = [q + [a] for q in seqs for a in (OPEN, load, START, STOP, CLOSE, PARAMS)]
         out.extend(seqs)
+    return out
+
+
+def copy_sessions(depth):
+    """the description with the <pValueCopy> mirror"""
+    return variant_sessions(LOADC, depth)
+
+
+def avail_sessions():
+    """Description LOADA: AcquisitionStart / AcquisitionStop carry <pIsAvailable> backed by two device registers
+    (words 4 / 5 of the device memory).  The device sets them in every combination before start_streaming and again
+    between start and stop / close (e.g. the acquisition ended on its own).  Camera executes the commands without
+    consulting their access mode: when no device operation fails, start, stop and close succeed and close leaves
+    everything clean, whatever the registers hold."""
+    out = []
+    bits = (0, 1)
+    for a0 in bits:
+        for b0 in bits:
+            for a1 in bits:
+                for b1 in bits:
+                    pre = [poke(AVAIL_START, a0), poke(AVAIL_STOP, b0)]
+                    mid = [poke(AVAIL_START, a1), poke(AVAIL_STOP, b1)]
+                    for tail in ([STOP], [CLOSE], [STOP, CLOSE], [PARAMS, CLOSE, OPEN, START, STOP, CLOSE], [STOP, START, CLOSE],
+                                 [CLOSE, CLOSE]):
+                        out.append([OPEN, LOADA] + pre + [START] + mid + tail)
+    for a1 in bits:
+        for b1 in bits:
+            mid = [poke(AVAIL_START, a1), poke(AVAIL_STOP, b1)]
+            out.append([OPEN, LOADA, START] + mid + [CLOSE])
+            out.append([LOADA, START] + mid + [STOP, START, STOP])
+            out.append([OPEN, LOAD, START, LOADA] + mid + [CLOSE])        # the description changes while streaming
+    return out
+
+
+def value_sessions():
+    """The values AcquisitionStart / AcquisitionStop write are the CommandValues of the description, whatever else is
+    written through the context: descriptions with TLParamsLocked on the host side (Camera itself writes that variable),
+    with AcquisitionStop CommandValue 0 or 1, x params writes of other host-side variables (UserVar <Value>1</Value>,
+    the bank selector <Value>0</Value>) before start and between start and stop."""
+    acts = ([], [USER + 0], [USER + 1], [USER + 7], [BANK + 0], [BANK + 2], [BANK + 1, USER + 0], [PARAMS])
+    out = []
+    for load in (LOADH, LOADZ, LOAD, LOADC, LOADA):
+        for pre in acts:
+            for mid in acts:
+                for tail in ([STOP, CLOSE], [CLOSE], [STOP, START, STOP, CLOSE]):
+                    out.append([OPEN, load] + pre + [START] + mid + tail)
+    # descriptions that keep TLParamsLocked in different places / have different stop values, loaded in one session
+    for a in (LOAD, LOADC, LOADH, LOADZ, LOADA):
+        for b in (LOAD, LOADC, LOADH, LOADZ, LOADA):
+            if a != b:
+                out.append([OPEN, a, START, b, STOP, CLOSE])
+                out.append([OPEN, a, START, PARAMS, b, PARAMS, CLOSE, PARAMS, OPEN, START, PARAMS, a, CLOSE])
+                out.append([OPEN, a, START, STOP, b, USER + 3, START, CLOSE])
     return out
 
 
@@ -583,19 +682,22 @@ def extra_cases(ck):
               [OPEN, LOADC, START, LOAD, STOP, CLOSE], [OPEN, LOADC, START, LOAD, CLOSE, LOADC, OPEN, START, CLOSE],
               [OPEN, LOAD, START, LOADC, STOP, CLOSE], [OPEN, LOADC, 10, CLOSE], [OPEN, LOADC, 11, PARAMS, STOP, CLOSE],
               [OPEN, LOADC, START, 47, STOP, CLOSE], [OPEN, LOADC, START, 21, STOP, LOADC, STOP, CLOSE],
+              [USER + 2], [OPEN, USER], [OPEN, 47, USER + 9], [OPEN, LOADH, 10, CLOSE], [OPEN, LOADH, 11, PARAMS, STOP, PARAMS, CLOSE],
+              [OPEN, LOADH, PARAMS, CLOSE, OPEN, PARAMS], [OPEN, LOADA, 10, CLOSE], [OPEN, LOADZ, START, 47, CLOSE],
               [BANK], [OPEN, BANK + 1], [OPEN, 47, BANK + 2], [OPEN, 21, poke(3, 5), BANK + 3, BANK + 3, CLOSE, BANK + 3]):
         cases.append(mk(s))
     # random longer sessions over the extended alphabet with random multi-failure plans
-    ext = ALPHABET * 4 + [10, 11, 19, 21, 23, 29, 32, 38, 46, 47] + [LOADC] * 3 + [BANK + k for k in range(NSLOT)] * 2
+    ext = (ALPHABET * 4 + [10, 11, 19, 21, 23, 29, 32, 38, 46, 47] + [LOADC] * 3 + [BANK + k for k in range(NSLOT)] * 2
+           + [LOADA, LOADH, LOADH, LOADZ, USER, USER + 1, USER + 5])
     n = 2500 if quick else 40000
     for _ in range(n):
         ln = rng.range(3, 12)
         if rng.chance(1, 2):
             calls = [rng.choice(ALPHABET) for _ in range(ln)]
         else:
-            calls = [rng.choice(ext) if rng.chance(5, 6) else poke(rng.below(NSLOT), rng.below(256)) for _ in range(ln)]
+            calls = [rng.choice(ext) if rng.chance(5, 6) else poke(rng.below(NMEM), rng.below(256)) for _ in range(ln)]
         if rng.chance(2, 3):
-            calls = [OPEN, LOADC if rng.chance(1, 4) else LOAD] + calls
+            calls = [OPEN, rng.choice([LOADC, LOADH, LOADZ, LOADA]) if rng.chance(1, 3) else LOAD] + calls
         k = rng.choice([0, 1, 1, 2, 2, 3, 5])
         pts = sorted({(rng.below(len(calls)), rng.below(5)) for _ in range(k)})
         cases.append(mk(calls, [(a, b, rng.below(NCLASS)) for a, b in pts]))
@@ -653,7 +755,13 @@ RULE = ("exhaustive: every session over {open, load_context, start_streaming(3),
         "close+close+open | stop | start+stop | nothing | close | close+load(mirror)+open}, the device's bank memory "
         "changed by the environment before or after that step, then every order of 1..3 reads (+ close / open cycles "
         "over all 4 slots while streaming), failure-free and (a sample) with every single failure point (all classes at "
-        "the bank reads); real "
+        "the bank reads); descriptions whose AcquisitionStart / AcquisitionStop carry <pIsAvailable> backed by two device "
+        "registers, the device setting them in every combination before start_streaming and again before stop / close "
+        "(x every single failure point); a description that keeps TLParamsLocked as a host-side variable (<Value>0</Value>) "
+        "with AcquisitionStop <CommandValue>0</CommandValue> (every session up to depth 4 x every failure point), one with "
+        "TLParamsLocked in its register and stop value 0, the <pIsAvailable> one (depth 3); five descriptions x params writes "
+        "of host-side variables (UserVar <Value>1</Value> := 0 / 1 / 7, the bank selector <Value>0</Value>) before start and "
+        "between start and stop, descriptions of different kinds loaded in one session; real "
         "Camera<FakeCtrl, FakeStrm, DefaultGenApiCtxt> vs Gallina model (vm_compute): per-call result (carrying the fault "
         "class), failed operation, device log (every operation attempted, in order), effect trace, value read, state after "
         "every call (streaming flag, context, register cache, device state); "
@@ -662,7 +770,10 @@ RULE = ("exhaustive: every session over {open, load_context, start_streaming(3),
         "the failed operation with the injected class + every access attempted once + nothing after the failed attempt + "
         "a device read of a bank slot returns the device's current value, a read served without a device access returns "
         "what a device read of that slot returned since the last close in which nothing failed (cached register values "
-        "are dropped by close); "
+        "are dropped by close) + AcquisitionStart / AcquisitionStop write the CommandValue of the description loaded last "
+        "(the effect code carries the value written) + when no operation failed (conforming descriptions, cap > 0) open, "
+        "stop_streaming and close return Ok and start_streaming returns Ok unless it is refused as InStreaming / "
+        "GenApiContextMissing; "
         "end-to-end: failure-free sessions open . {load, start, stop, params, open}^<=%d . close (and re-open tails) on the real "
         "Camera<ControlHandle, StreamHandle> over the scripted U3V device of rust/shim (real manifest / XML fetch, SIRM "
         "programming, streaming-loop thread): result classes, protocol-relevant device-memory writes, value read, streaming flag, "
@@ -683,7 +794,9 @@ def main():
         "rust/h_camera: the recording fakes (FakeCtrl / FakeStrm: a planned failure of a chosen fault class has no effect; every "
         "invocation of a fake method is logged as an attempt; the loop is a flag, no thread; the bank memory is changed "
         "by environment steps of the session), the GenApi descriptions it serves (three SFNC nodes, the mirror variant, "
-        "the selector-addressed bank), its classification of CameleonError",
+        "the selector-addressed bank, the availability registers, the host-side TLParamsLocked, the command values: the fake "
+        "device starts / stops acquiring when the value written is the CommandValue of the description loaded last), its "
+        "classification of CameleonError",
         "camera.rs + genapi/mod.rs (GenApiDevice) are exercised over the fakes (all failure plans) and over the real ControlHandle / "
         "StreamHandle on the scripted device of rust/shim (rust/h_u3v cam16: failure-free, and with one disturbed control "
         "transaction at a GenApi-driven access); the handles themselves are the subject of C06, C07, C12, C15",
@@ -741,7 +854,7 @@ def main():
     # Sessions are kept as (calls, plan) pairs and turned into cases batch by batch: the thorough tier has
     # several 10^5 cases and must stay small in memory.
     kinds = {}
-    bank_stats, copy_stats = {}, {}
+    bank_stats, copy_stats, cmd_stats = {}, {}, {}
     JOBS = min(vplib.NPROC, 16)
     # sessions up to this depth: every fault class at every failure point (thorough with fewer than 8 workers
     # stays at 4 to keep the tier under 20 minutes: 19.5 min were measured with depth 5 and VERIF_JOBS=4)
@@ -825,8 +938,20 @@ def main():
             rs = parse(o, len(calls)) if o else None
             closed = False          # a clean close happened and the slot was not read since
             unread = set()
+            desc, avail = None, [0, 0]
             for call, r in zip(calls, rs or []):
                 kinds[r["res"]] = kinds.get(r["res"], 0) + 1
+                if call >= 1000 and (call - 1000) // 256 >= AVAIL_START:
+                    avail[(call - 1000) // 256 - AVAIL_START] = (call - 1000) % 256
+                for e in r["effs"]:
+                    if e[0] in (E_ASTART, E_ASTART0, E_ASTOP, E_ASTOP0):
+                        name = "AcquisitionStart" if e[0] in (E_ASTART, E_ASTART0) else "AcquisitionStop"
+                        key = "%s wrote %d (description %s)" % (name, 1 if e[0] in (E_ASTART, E_ASTOP) else 0, desc)
+                        if desc == LOADA:
+                            key += ", availability register %s" % ("!= 0" if avail[0 if name == "AcquisitionStart" else 1] else "= 0")
+                        cmd_stats[key] = cmd_stats.get(key, 0) + 1
+                if 20 <= call <= LAST_LOAD and r["res"] == 0:
+                    desc = call
                 if call == CLOSE and r["res"] == 0 and not r["failed"]:
                     unread = set(range(NSLOT))
                 if BANK <= call < BANK + NSLOT and r["res"] == 0:
@@ -870,6 +995,23 @@ def main():
         csess, "description with <pValueCopy>: exhaustive depth<=%d x single failure (every class at the mirror write)" % cdepth,
         focus=True)
     ck.phase("pValueCopy")
+    # TLParamsLocked on the host side / AcquisitionStop with CommandValue 0 / commands with <pIsAvailable>
+    hsess = variant_sessions(LOADH, cdepth) + variant_sessions(LOADZ, 3) + variant_sessions(LOADA, 3)
+    ck.dist["host_side_TLParamsLocked_sessions"] = len(hsess)
+    ck.dist["host_side_TLParamsLocked_single_failure_cases"] = families(
+        hsess, "descriptions with a host-side TLParamsLocked (depth<=%d) / stop CommandValue 0 / <pIsAvailable> commands "
+        "(depth<=3) x single failure" % cdepth, focus=True)
+    asess = avail_sessions()
+    vsess = value_sessions()
+    ck.dist["availability_sessions"] = len(asess)
+    ck.dist["command_value_sessions"] = len(vsess)
+    ck.dist["availability_single_failure_cases"] = families(
+        asess, "commands with <pIsAvailable>: the device sets the availability registers in every combination before start "
+        "and before stop / close x single failure", focus=True)
+    process([(s_, ()) for s_ in vsess], "command values: host-side TLParamsLocked / stop value 0 x params writes of host-side variables")
+    ck.dist["command_value_single_failure_cases"] = families(
+        vsess[::4 if quick else 1], "command values x single failure", focus=True)
+    ck.phase("host / values / availability")
     # cached values across close / reopen, the device's memory changing behind the cache
     bsess = bank_sessions(quick)
     ck.dist["bank_sessions"] = len(bsess)
@@ -916,6 +1058,7 @@ def main():
         ck.phase("end-to-end")
     ck.dist["call_results_by_class"] = kinds
     ck.dist["bank_reads"] = bank_stats
+    ck.dist["acquisition_commands"] = cmd_stats
     ck.dist["failed_mirror_writes_of_TLParamsLocked"] = copy_stats
     ck.exhaustive = False   # the theorems are for unbounded sessions; the correspondence enumerates depth <= depth only
     ck.dist["exhaustive_bound"] = "sessions over 6 calls up to depth %d x every single failure point" % depth
